@@ -12,7 +12,7 @@
 From Coq Require Import List Ascii String NArith Bool.
 From Coq Require Import Arith.
 From Martian.C14 Require Import Gen_HopByHop Gen_Stack Gen_Shared Model Proofs_Base Proofs_Stack Proofs_Spec
-  Proofs_Conc Proofs_Audit Proofs_Tie.
+  Proofs_Conc Proofs_Audit Proofs_Chain Proofs_Tie.
 Import ListNotations.
 
 (* No hop-by-hop header of the received message survives: after the stack a
@@ -229,6 +229,54 @@ Theorem C14_totalisation_defaults_never_decide :
 Proof. exact s_totalisation. Qed.
 Print Assumptions C14_totalisation_defaults_never_decide.
 
+(* ---------------- instance identity, chains of proxies ---------------- *)
+
+(* "This proxy instance" is the whole pseudonym requestedBy-boundary: instances
+   with the same name and different boundaries have different pseudonyms, the
+   entry one of them stamps does not name the other, and names itself.  The
+   boundary is random per instance; that randomBoundary draws a positive number
+   of bytes (10, printed as 20 hex digits) is read from the source by the
+   translator; that the draws differ is checked on real instances every run. *)
+Theorem C14_instance_identity_is_name_and_boundary :
+  (forall name b b', instance_tag name b = instance_tag name b' <-> b = b') /\
+  (forall eA eB, own_entry_ok eA = true -> e_self eA <> e_self eB ->
+     entry_names (e_self eB) (own_via eA) = false) /\
+  (forall e, own_entry_ok e = true -> entry_names (e_self e) (own_via e) = true) /\
+  (0 < boundary_random_bytes /\ 2 * boundary_random_bytes = 20).
+Proof. exact s_identity. Qed.
+Print Assumptions C14_instance_identity_is_name_and_boundary.
+
+(* A request handed through any number of instances with pairwise different
+   pseudonyms (same name allowed), none of which the received Via list names:
+   no hop reports a loop or any error, no round trip is skipped, and after the
+   last hop (hence, the hypotheses being prefix-closed, after every hop) the
+   Via list is the received one followed by one entry per hop, in hop order. *)
+Theorem C14_chain_of_distinct_instances_no_false_loop_one_entry_per_hop : forall es h,
+  Forall (fun e => own_entry_ok e = true) es /\ NoDup (map e_self es) /\
+  bad_framing h = false /\ ~ is_hop h K_VIA /\
+  (forall e, In e es -> names_tag (e_self e) h = false) ->
+  Forall (fun o => o_err o = None /\ o_skip o = false /\ o_inner o = true) (chain es h) /\
+  List.length (chain es h) = List.length es /\
+  (forall d, es <> [] ->
+     joined (o_hdr (last (chain es h) d)) K_VIA =
+     fold_left (fun v e => append_to v (own_via e)) es (joined h K_VIA)).
+Proof. exact s_chain_distinct. Qed.
+Print Assumptions C14_chain_of_distinct_instances_no_false_loop_one_entry_per_hop.
+
+(* A true loop through other instances (A -> B -> ... -> A): the hop whose
+   pseudonym was already met refuses: error, round trip skipped, inner group not run. *)
+Theorem C14_loop_through_other_instances_is_refused : forall es h e0 e',
+  Forall (fun e => own_entry_ok e = true) es /\ NoDup (map e_self es) /\
+  bad_framing h = false /\ ~ is_hop h K_VIA /\
+  (forall e, In e es -> names_tag (e_self e) h = false) ->
+  In e0 es -> e_self e' = e_self e0 ->
+  exists outs o, chain (es ++ [e']) h = outs ++ [o] /\
+    Forall (fun o => o_err o = None /\ o_skip o = false /\ o_inner o = true) outs /\
+    List.length outs = List.length es /\
+    o_err o = Some ELoop /\ o_skip o = true /\ o_inner o = false.
+Proof. exact s_chain_loop. Qed.
+Print Assumptions C14_loop_through_other_instances_is_refused.
+
 (* ---------------- non-vacuity ---------------- *)
 
 Definition ex_env : env :=
@@ -322,3 +370,22 @@ Example C14_example_propfail :
   first_false (c14_req_clauses ex_env h good) = None /\
   first_false (c14_req_clauses ex_env h bad) = Some "no_hop_by_hop_survives"%string.
 Proof. vm_compute. split; reflexivity. Qed.
+
+(* three instances named martian with different boundaries; A -> B -> C forwards, A -> B -> A is refused by A *)
+Definition ex_inst (b : string) : env :=
+  mkEnv (instance_tag (B "martian") (B b)) (B "1.1") (B "10.0.0.1") (B "http") (B "example.com") (B "http://example.com/x").
+Definition ex_A := ex_inst "00112233445566778899".
+Definition ex_B := ex_inst "aabbccddeeff00112233".
+Definition ex_C := ex_inst "0123456789abcdef0123".
+Definition ex_chain_in : headers := of_lines [(B "Via", B "1.0 front"); (B "Accept", B "*/*")].
+
+Example C14_example_chain :
+  Forall (fun e => own_entry_ok e = true) [ex_A; ex_B; ex_C] /\
+  bad_framing ex_chain_in = false /\ is_hopb ex_chain_in K_VIA = false /\
+  forallb (fun e => negb (names_tag (e_self e) ex_chain_in)) [ex_A; ex_B; ex_C] = true /\
+  forallb boundary_wf [B "00112233445566778899"; B "aabbccddeeff00112233"; B "0123456789abcdef0123"] = true /\
+  map o_err (chain [ex_A; ex_B; ex_C] ex_chain_in) = [None; None; None] /\
+  values (o_hdr (last (chain [ex_A; ex_B; ex_C] ex_chain_in) (mkReqOut [] None false false))) K_VIA =
+    [B "1.0 front, 1.1 martian-00112233445566778899, 1.1 martian-aabbccddeeff00112233, 1.1 martian-0123456789abcdef0123"] /\
+  map o_err (chain [ex_A; ex_B; ex_A] ex_chain_in) = [None; None; Some ELoop].
+Proof. vm_compute. repeat split; try reflexivity; repeat constructor. Qed.
